@@ -36,7 +36,7 @@ ANCHORS = [
     "acnportal.acnsim.models.battery:Linear2StageBattery._charge_stepwise",
     "acnportal.acnsim.models.ev:EV.charge",
 ]
-REQUIRED = ["simulations_with_one_battery_object_shared_by_several_evs", "charge_calculation_switched_on_a_living_battery", "second_simulations_with_reset_evs", "calls_with_voltage_or_period_changing_on_one_battery", "battery_json_round_trips_mid_sequence", "charge_calls_judged", "regime:ideal", "regime:l2-continuous", "regime:l2-stepwise",
+REQUIRED = ["aborted_runs_judged_including_the_aborted_period", "simulations_with_one_battery_object_shared_by_several_evs", "charge_calculation_switched_on_a_living_battery", "second_simulations_with_reset_evs", "calls_with_voltage_or_period_changing_on_one_battery", "battery_json_round_trips_mid_sequence", "charge_calls_judged", "regime:ideal", "regime:l2-continuous", "regime:l2-stepwise",
             "regime:l2-continuous+noise", "regime:l2-stepwise+noise", "sim_cells_checked", "suite:charge_calls_judged", "resets_above_capacity", "resets_within_capacity"]
 BUDGET_S = {"quick": 200, "thorough": 2400}
 
@@ -158,6 +158,8 @@ def cases(seed, tier):
         kinds = ("EVSE", "DB", "FR") if sch != "sorted" else ("EVSE", "FR")
         d = gen.scenario(rng, sched=sch, kinds=kinds, noise_p=0.5, constraint_free_p=0.0 if sch == "sorted" else 0.2)
         out.append({"kind": "sim", "desc": d, "reuse_evs": rng.random() < 0.4, "shared_battery": rng.random() < 0.15})
+        if rng.random() < 0.25 and not out[-1]["shared_battery"]:
+            out[-1]["bad_pilot_at"] = rng.choice([1, 2, 3, 5])
     out.append({"kind": "suite"})  # the repository's own tests as one more workload under the same post-condition
     return out
 
@@ -282,6 +284,46 @@ def _run_sim(case, obs):
             evs0.append(EV(s_["arrival"], s_["departure"], s_["requested"], s_["station"], s_["id"], b_, estimated_departure=s_.get("est_dep", s_["departure"])))
         sim, evs = build.build_sim(d, evs=evs0)
         obs.ev("simulations_with_one_battery_object_shared_by_several_evs")
+    elif case.get("bad_pilot_at") is not None:
+        # once, the scheduler sends one station a pilot outside its allowable set (the others get valid ones): the network rejects
+        # it in the middle of the period and run() raises; whatever the simulator has recorded by then obeys the bounds
+        from acnportal.algorithms import BaseAlgorithm
+        inner = build.build_scheduler(d)
+        stn = d["network"]["stations"]
+        box = {"n": 0, "fired": False}
+
+        class OneBadPilot(BaseAlgorithm):
+            def __init__(self):
+                super().__init__()
+                self.max_recompute = inner.max_recompute
+
+            def register_interface(self, interface):
+                super().register_interface(interface)
+                inner.register_interface(interface)
+
+            def schedule(self, active_sessions):
+                out = inner.schedule(active_sessions)
+                box["n"] += 1
+                if not box["fired"] and box["n"] > case["bad_pilot_at"] and len(active_sessions) >= 1:
+                    box["fired"] = True
+                    victim = stn[(len(stn) // 2 + box["n"]) % max(1, len(stn) - 1)]  # (never the last one registered)
+                    mx = gen.evse_max(victim["evse"])
+                    bad = (mx + 7.3) if mx != float("inf") else -5.0
+                    L = len(next(iter(out.values()))) if out else 1
+                    out = {k_: list(v_) for k_, v_ in out.items()}
+                    out[victim["id"]] = [bad] + [0.0] * (L - 1)
+                    # the stations registered after the victim are switched off in this period (0 A is valid everywhere), the ones
+                    # before it keep what the scheduler decided or get their maximum
+                    vi_ = [s_["id"] for s_ in stn].index(victim["id"])
+                    for j_, s_ in enumerate(stn):
+                        if j_ > vi_:
+                            out[s_["id"]] = [0.0] * L
+                        else:
+                            out.setdefault(s_["id"], [float(gen.evse_max(s_["evse"])) if gen.evse_max(s_["evse"]) != float("inf") else 16.0] + [0.0] * (L - 1))
+                return out
+
+        sim, evs = build.build_sim(d, scheduler=OneBadPilot())
+        obs.ev("simulations_in_which_one_station_is_sent_an_invalid_pilot_once")
     else:
         sim, evs = build.build_sim(d)
     _sim_once(obs, d, sim, "first use of the EV objects")
@@ -305,10 +347,16 @@ def _sim_once(obs, d, sim, how):
     if exc is not None:
         obs.ev("sim_ended_with_exception:" + type(exc).__name__)
     T = sim.iteration
-    cr, ps = sim.charging_rates[:, :T], sim.pilot_signals[:, :T]
+    if exc is not None:
+        # the run was cut short inside period T: that period's column (and whatever lies beyond) is judged too
+        W = min(sim.charging_rates.shape[1], sim.pilot_signals.shape[1])
+        cr, ps = sim.charging_rates[:, :W], sim.pilot_signals[:, :W]
+        obs.ev("aborted_runs_judged_including_the_aborted_period")
+    else:
+        cr, ps = sim.charging_rates[:, :T], sim.pilot_signals[:, :T]
     obs.ev("sim_cells_checked", int(cr.size))
     tol = 1e-9 * np.maximum(1.0, np.abs(ps))
-    bad = ~((cr >= -tol) & (cr <= ps + tol))
+    bad = ~((cr >= -tol) & (cr <= ps + tol)) & (ps >= 0)  # (the statement speaks of pilots >= 0; a recorded negative pilot is not judged)
     if bad.any():
         i, t = map(int, np.argwhere(bad)[0])
         obs.violate("sim_rate_outside_0_pilot",
